@@ -377,6 +377,43 @@ Print Assumptions C16_complete_entry_is_flushed_next.
 Print Assumptions C16_flushed_control_leaves.
 Print Assumptions C16_write_step_decreases_work.
 Print Assumptions C16_flush_step_decreases_work.
+From Minimq Require Import History.
+
+(* ---- histories of any length.  `Idle`: a healthy connection without keep-alive with nothing queued, nothing half read, nothing
+   in flight between client and broker.  One complete QoS 1 exchange leads from idle to idle, so every history of QoS 1 publishes,
+   each followed by one poll(), completes every one of them: publish() returns its handle having put exactly the encoded PUBLISH
+   on the wire, the broker answers, poll() writes nothing and leaves the handle complete, window and arena as before. ---- *)
+Theorem C16_publish_accepted_when_idle : forall s r q,
+  ob_ret (s_ob s) = [] -> rt_mps (s_rt s) = None -> rt_quota (s_rt s) <> 0 -> 5 <= ob_cap (s_ob s) ->
+  props_valid_for (pr_props r) CtxPublish = true -> effective_qos s (pr_qos r) = q -> q <> Q0 ->
+  (forall id, exists off bs, enc_publish (ob_cap (s_ob s)) (pub_request r q id) = SOk off bs) ->
+  exists s2 op, publish_middle s true r = (s2, MRetained op).
+Proof. exact publish_accepted_idle. Qed.
+
+Theorem C16_qos1_exchange_idle_to_idle : forall w r s2 op ps,
+  Idle w ->
+  publish_middle (w_sess w) true r = (s2, MRetained op) ->
+  effective_qos (w_sess w) (pr_qos r) = Q1 -> pr_props r = PSlice ps -> op_pid op < 65536 ->
+  exists w1 w2 bs cap off,
+    op_publish FUEL r w = (w1, ODone (Some op)) /\
+    enc_publish cap (pub_request r Q1 (op_pid op)) = SOk off bs /\ w_wire w1 = w_wire w ++ bs /\
+    op_poll FUEL w1 = (w2, ODone None) /\ w_wire w2 = w_wire w1 /\ w_now w2 = w_now w /\
+    has_retained (s_ob (w_sess w2)) (op_pid op) = false /\
+    rt_quota (s_rt (w_sess w2)) = N.min (N.min (rt_quota (s_rt (w_sess w)) - 1 + 1) 65535) (rt_maxquota (s_rt (w_sess w))) /\
+    rt_maxquota (s_rt (w_sess w2)) = rt_maxquota (s_rt (w_sess w)) /\ rt_quota (s_rt (w_sess w)) <> 0 /\
+    ob_cap (s_ob (w_sess w2)) = ob_cap (s_ob (w_sess w)) /\
+    Idle w2.
+Proof. exact qos1_exchange_idle. Qed.
+
+Theorem C16_qos1_history_completes : forall rs w,
+  IdleQ w -> wanted (ob_cap (s_ob (w_sess w))) rs w ->
+  exists w', q1_history w rs w' /\ IdleQ w' /\ w_now w' = w_now w.
+Proof. exact qos1_history_completes. Qed.
+
+Theorem C16_history_hyps_met :
+  IdleQ ex_b1 /\ wanted (ob_cap (s_ob (w_sess ex_b1))) [ex_pub; ex_pub] ex_b1.
+Proof. exact history_hyps_met. Qed.
+
 Print Assumptions C16_progress_decreases_work.
 Print Assumptions C16_reachable_invariant.
 Print Assumptions C16_drive_loop_terminates.
@@ -407,3 +444,7 @@ Print Assumptions C16_exchange2_example.
 Print Assumptions C16_subscribe_exchange_completes.
 Print Assumptions C16_unsubscribe_exchange_completes.
 Print Assumptions C16_exchange3_example.
+Print Assumptions C16_publish_accepted_when_idle.
+Print Assumptions C16_qos1_exchange_idle_to_idle.
+Print Assumptions C16_qos1_history_completes.
+Print Assumptions C16_history_hyps_met.
